@@ -19,9 +19,20 @@ func encodeBundle(b *bpv7.Bundle) (out []byte, err error) {
 		}
 	}()
 	var buf bytes.Buffer
+	hint := 1024
+	for _, cb := range b.CanonicalBlocks {
+		if pb, ok := cb.Value.(*bpv7.PayloadBlock); ok {
+			hint += len(pb.Data())
+		}
+	}
+	buf.Grow(hint)
 	err = b.MarshalCbor(&buf)
 	return buf.Bytes(), err
 }
+
+type countWriter int
+
+func (c *countWriter) Write(p []byte) (int, error) { *c += countWriter(len(p)); return len(p), nil }
 
 // testBundle is one generated bundle with its reference encoding.
 type testBundle struct {
@@ -32,13 +43,18 @@ type testBundle struct {
 // fresh returns a new repository struct for the bundle (never shared between goroutines).
 func (tb *testBundle) fresh() bpv7.Bundle { return tb.M.ToBpv7() }
 
-func encLen(m model.Bundle) int {
+func encLen(m model.Bundle) (n int) {
+	defer func() {
+		if p := recover(); p != nil {
+			n = -1
+		}
+	}()
 	b := m.ToBpv7()
-	x, err := encodeBundle(&b)
-	if err != nil {
+	var c countWriter
+	if err := b.MarshalCbor(&c); err != nil {
 		return -1
 	}
-	return len(x)
+	return int(c)
 }
 
 func setPayload(m *model.Bundle, rng *report.Rand, p int) {
@@ -120,18 +136,22 @@ func bundleOfLen(rng *report.Rand, L int, nowMs uint64) (*testBundle, error) {
 		}
 		guess := L - l0
 		for p := guess; p >= 0 && p >= guess-12; p-- {
+			m.Blocks[len(m.Blocks)-1].Data = make([]byte, p) // probe with zeros, fill afterwards
+			if n := encLen(m); n < L {
+				break
+			} else if n > L {
+				continue
+			}
 			setPayload(&m, rng, p)
 			b := m.ToBpv7()
 			x, err := encodeBundle(&b)
 			if err != nil {
 				return nil, err
 			}
-			if len(x) == L {
-				return &testBundle{M: m.Clone(), Enc: x}, nil
+			if len(x) != L {
+				return nil, fmt.Errorf("encoded length depends on the payload's content (%d != %d)", len(x), L)
 			}
-			if len(x) < L {
-				break
-			}
+			return &testBundle{M: m.Clone(), Enc: x}, nil
 		}
 	}
 	return nil, fmt.Errorf("no payload length gives an encoding of exactly %d bytes", L)
